@@ -246,6 +246,9 @@ type c04Sut struct {
 	// written by ANOTHER value store (c04World.foreignPut)
 	dss   []*simds.DS
 	close func()
+	// lanSize (dual only): how many peers the LAN side's routing table holds
+	// (public accessor; read for a probe, never for a verdict)
+	lanSize func() int
 }
 
 type c04World struct {
@@ -273,6 +276,9 @@ type c04World struct {
 	localPlanted      bool          // the stored record was rewritten in the datastore: never valid for the key
 	localForeign      bool          // the stored record was written by another value store: the key lies outside the client's namespaces
 	localStoredAt     time.Duration // when the client stored it (its age counts from here)
+	// lanEmptyAtStart (dual, probe only): the LAN side's routing table held
+	// nobody at the quiescent point before the search started
+	lanEmptyAtStart bool
 
 	op         *Op
 	startAt    time.Duration
@@ -961,6 +967,7 @@ func c04RunValue(s *sim.Sim, variant string, lazy bool) {
 	if w.lazy != nil && w.localStored && !w.localPlanted && w.validate(c.Key, w.localVal) == nil {
 		w.lazy.pipe++ // the search hands the local record to its value loop first
 	}
+	w.lanEmptyAtStart = w.sut.lanSize != nil && w.sut.lanSize() == 0
 	w.op = w.ops.Go(s, name, func() (any, error) {
 		w.startAt = s.Now()
 		w.localValidAtStart = w.localStored && !w.localPlanted && w.validate(c.Key, w.localVal) == nil
@@ -1308,6 +1315,66 @@ func (w *c04World) check() {
 					s.Violate("best-known", "final value %s is ranked worse than %s supplied by %s while the search was running", c04Short(final), c04Short(m.val), m.from)
 				}
 				break
+			}
+		} else if c.Search && w.localValidAtStart && !localMaybeGone {
+			// (3-dual) the local-storage half of best-known on dual.SearchValue:
+			// "the final value is ranked at least as good as every valid value
+			// supplied by local storage" (mechanism: "dual merges WAN and LAN under
+			// the same validator"). Unlike the peer half, this half needs no
+			// "processed before the search ended" observable: the record sits in the
+			// node's own storage (whichever side's datastore it was routed to when
+			// the node published it) before the search starts, the validator accepts
+			// it at the instant the search starts, and it cannot have outlived the
+			// requester's maximum record age by the time the search ended. Nothing
+			// about which side holds it, whether either routing table is empty, or
+			// what the peers answer enters the rule. Judged for uncancelled
+			// SearchValue only: for dual.GetValue property C15 fixes the result to
+			// the WAN side's whenever that side succeeds, so the clause is not
+			// demanded of it here (see the report / DESIGN note).
+			s.Count("probe_dual_local_bestknown_checked")
+			lanEmpty := w.lanEmptyAtStart
+			// (probes only) WAN peers present: the split gave the WAN side responders
+			// and the client got starting points. Whether one of them got to supply
+			// anything is the client's business: a LAN side that ends at once, having
+			// yielded the local record, ends the merged search before any WAN answer
+			// arrives.
+			wanPeers, wanSupplied := false, false
+			for _, side := range w.side {
+				wanPeers = wanPeers || (side == "wan" && c.NoPeers == 0)
+			}
+			for _, sp := range w.supplies {
+				wanSupplied = wanSupplied || (sp.ValidNow && w.side[sp.Peer] == "wan")
+			}
+			if lanEmpty {
+				s.Count("probe_dual_local_valid_lan_table_empty")
+				if wanPeers {
+					s.Count("probe_dual_local_valid_lan_table_empty_wan_peers_present")
+				}
+			}
+			sel, serr := 1, error(nil)
+			if final != nil {
+				sel, serr = w.selectFn()(c.Key, [][]byte{final, w.localVal})
+			}
+			if final == nil || serr != nil || sel != 0 {
+				fin := fmt.Sprintf("no value at all (err=%v)", err)
+				if final != nil {
+					fin = "the final value " + c04Short(final) + ", ranked worse"
+				}
+				s.Violate("best-known-dual-local", "the dual client's own storage held the valid record %s for %q when SearchValue started (stored through dual.PutValue %v earlier, accepted by the validator at the start instant, within the maximum record age) and the uncancelled search ended with %s: a valid value supplied by local storage did not take part in the WAN/LAN merge under the validator (LAN routing table empty when the search started: %v; WAN peers present: %v; a WAN peer supplied a valid value: %v)",
+					c04Short(w.localVal), c.Key, w.startAt-w.localStoredAt, fin, lanEmpty, wanPeers, wanSupplied)
+			}
+		}
+		if c.Variant == "dual" && !c.Search && w.localValidAtStart && !localMaybeGone {
+			// Not a rule (see (3-dual)): how often dual.GetValue returns the WAN
+			// side's value, or nothing, while the node's own storage holds a valid
+			// record the validator ranks higher. Counted so that the evidence shows
+			// the situation is generated; not listed among the probes that must fire.
+			sel, serr := 1, error(nil)
+			if final != nil {
+				sel, serr = w.selectFn()(c.Key, [][]byte{final, w.localVal})
+			}
+			if final == nil || serr != nil || sel != 0 {
+				s.Count("probe_dual_getvalue_result_outranked_by_local_record")
 			}
 		}
 		// (4) nothing valid supplied anywhere => not-found, never a value
